@@ -159,8 +159,11 @@ func (r *rewriter) collect(f *ast.File) {
 			sel := n
 			kind := r.classifySelect(sel)
 			switch kind {
-			case "recv":
+			case "recv", "mixed":
 				r.census["select"]++
+				if kind == "mixed" {
+					r.census["select:with-send"]++
+				}
 				r.usesRT = true
 				if labeled[sel] {
 					r.errorf(sel.Pos(), "labeled select statement not supported")
@@ -275,7 +278,7 @@ func (r *rewriter) classifySelect(sel *ast.SelectStmt) string {
 	if nsend == 1 && nrecv == 0 && ndef == 1 {
 		return "send-default"
 	}
-	return fmt.Sprintf("mixed send=%d recv=%d default=%d", nsend, nrecv, ndef)
+	return "mixed"
 }
 
 func (r *rewriter) renderSelect(sel *ast.SelectStmt, id int) string {
@@ -288,6 +291,8 @@ func (r *rewriter) renderSelect(sel *ast.SelectStmt, id int) string {
 		tok  token.Token
 		chn  string
 		body string
+		sendVal string
+		isSend  bool
 	}
 	var cls []cl
 	hasDefault := false
@@ -305,6 +310,12 @@ func (r *rewriter) renderSelect(sel *ast.SelectStmt, id int) string {
 		case nil:
 			hasDefault = true
 			k.idx = -1
+		case *ast.SendStmt:
+			k.idx = n
+			k.chn = r.exprText(s.Chan)
+			k.sendVal = r.exprText(s.Value)
+			k.isSend = true
+			n++
 		case *ast.ExprStmt:
 			u := s.X.(*ast.UnaryExpr)
 			k.idx = n
@@ -321,15 +332,23 @@ func (r *rewriter) renderSelect(sel *ast.SelectStmt, id int) string {
 		cls = append(cls, k)
 	}
 	var names []string
+	anySend := false
 	for _, k := range cls {
 		if k.idx < 0 {
 			continue
 		}
 		nm := fmt.Sprintf("__c%d_%d", k.idx, id)
 		fmt.Fprintf(&sb, "%s := %s\n", nm, k.chn)
-		names = append(names, nm)
+		if k.isSend {
+			anySend = true
+			fmt.Fprintf(&sb, "var __v%d_%d interface{} = %s\n", k.idx, id, k.sendVal)
+			names = append(names, fmt.Sprintf("verifsimrt.SendCase(%s, __v%d_%d)", nm, k.idx, id))
+		} else {
+			names = append(names, fmt.Sprintf("verifsimrt.RecvCase(%s)", nm))
+		}
 	}
-	fmt.Fprintf(&sb, "__i_%d, __rv_%d, __ok_%d := verifsimrt.Select(%v, %s)\n", id, id, id, hasDefault, strings.Join(ifaces(names), ", "))
+	_ = anySend
+	fmt.Fprintf(&sb, "__i_%d, __rv_%d, __ok_%d := verifsimrt.SelectX(%v, %s)\n", id, id, id, hasDefault, strings.Join(ifaces(names), ", "))
 	fmt.Fprintf(&sb, "_, _ = __rv_%d, __ok_%d\n", id, id)
 	fmt.Fprintf(&sb, "switch __i_%d {\n", id)
 	for _, k := range cls {
@@ -470,7 +489,7 @@ func main() {
 		}
 	}
 	// virtual packages
-	for _, vp := range []string{"rt", "simsync", "simrand", "hsync"} {
+	for _, vp := range []string{"rt", "simsync", "simrand", "hsync", "vfmt"} {
 		ents, err := os.ReadDir(filepath.Join(*simDir, vp))
 		if err != nil {
 			errs = append(errs, err.Error())
